@@ -2317,74 +2317,121 @@ impl<T: PPGEvaluatorStrategy> PPGEvaluator<T> {
 
         node_idx: NodeIndex,
     ) -> Result<Required, PPGEvaluatorError> {
-        let downstreams = dag.neighbors_directed(node_idx, Direction::Outgoing);
-        let mut had_unknown = false;
-        for downstream_idx in downstreams {
-            error!(
-                "downstream_requirement_status {}->{}: {:?} {:?}",
-                jobs[node_idx].job_id,
-                jobs[downstream_idx].job_id,
-                dag.edge_weight(node_idx, downstream_idx).unwrap().required,
-                jobs[downstream_idx].state
-            );
-            match dag.edge_weight(node_idx, downstream_idx).unwrap().required {
-                Required::Unknown => return Ok(Required::Unknown),
-                Required::Yes => return Ok(Required::Yes),
-                Required::No => match jobs[downstream_idx].state {
-                    JobState::Output(JobStateOutput::NotReady(ValidationStatus::Validated)) => {}
-                    JobState::Ephemeral(JobStateEphemeral::NotReady(
-                        ValidationStatus::Validated,
-                    )) => {
-                        // a validated ephemeral consumer does not need us by itself, but it
-                        // will as soon as one of *its* consumers turns out to be required.
-                        match Self::downstream_requirement_status(dag, jobs, downstream_idx)? {
-                            Required::Yes => return Ok(Required::Yes),
-                            Required::Unknown => had_unknown = true,
-                            Required::No => {}
+        // Validated ephemeral consumers are looked through (they need us as soon as one of
+        // *their* consumers is required). Chains of them can be as long as the graph is deep and
+        // layered ones have exponentially many paths, so this is a depth first walk with an
+        // explicit stack that looks at every job once - not a recursion.
+        // One frame per job being examined: (job, its consumers, next consumer, had_unknown)
+        let mut frames: Vec<(NodeIndex, Vec<NodeIndex>, usize, bool)> = vec![(
+            node_idx,
+            dag.neighbors_directed(node_idx, Direction::Outgoing)
+                .collect(),
+            0,
+            false,
+        )];
+        let mut seen: HashSet<NodeIndex> = HashSet::new();
+        seen.insert(node_idx);
+        loop {
+            let frame = frames.last_mut().unwrap();
+            let current_idx = frame.0;
+            // the verdict of a finished frame: Unknown or No. (Yes returns immediately).
+            let mut finished: Option<Required> = None;
+            if frame.2 >= frame.1.len() {
+                finished = Some(if frame.3 {
+                    Required::Unknown
+                } else {
+                    Required::No
+                });
+            } else {
+                let downstream_idx = frame.1[frame.2];
+                frame.2 += 1;
+                error!(
+                    "downstream_requirement_status {}->{}: {:?} {:?}",
+                    jobs[current_idx].job_id,
+                    jobs[downstream_idx].job_id,
+                    dag.edge_weight(current_idx, downstream_idx)
+                        .unwrap()
+                        .required,
+                    jobs[downstream_idx].state
+                );
+                match dag
+                    .edge_weight(current_idx, downstream_idx)
+                    .unwrap()
+                    .required
+                {
+                    Required::Unknown => finished = Some(Required::Unknown),
+                    Required::Yes => return Ok(Required::Yes),
+                    Required::No => match jobs[downstream_idx].state {
+                        JobState::Output(JobStateOutput::NotReady(ValidationStatus::Validated)) => {
+                        }
+                        JobState::Ephemeral(JobStateEphemeral::NotReady(
+                            ValidationStatus::Validated,
+                        )) => {
+                            // a validated ephemeral consumer does not need us by itself, but it
+                            // will as soon as one of *its* consumers turns out to be required.
+                            if seen.insert(downstream_idx) {
+                                frames.push((
+                                    downstream_idx,
+                                    dag.neighbors_directed(downstream_idx, Direction::Outgoing)
+                                        .collect(),
+                                    0,
+                                    false,
+                                ));
+                            }
+                        }
+
+                        JobState::Output(JobStateOutput::NotReady(
+                            ValidationStatus::Invalidated,
+                        )) => {
+                            error!("\tRequired::Yes");
+                            return Ok(Required::Yes);
+                        }
+                        JobState::Ephemeral(JobStateEphemeral::NotReady(
+                            ValidationStatus::Invalidated,
+                        )) => {
+                            error!("\tRequired::Yes");
+                            return Ok(Required::Yes);
+                        }
+
+                        JobState::Output(JobStateOutput::NotReady(ValidationStatus::Unknown)) => {
+                            error!("\tRequired::Unknown");
+                            frame.3 = true;
+                            //return Ok(Required::Unknown);
+                        }
+                        JobState::Ephemeral(JobStateEphemeral::FinishedUpstreamFailure) => {}
+                        JobState::Output(JobStateOutput::FinishedSkipped)
+                        | JobState::Output(JobStateOutput::FinishedUpstreamFailure) => {
+                            //why would this short circuit?
+                            //error!("\tRequired::No");
+                            //return Ok(Required::No)
+                        }
+                        JobState::Ephemeral(JobStateEphemeral::NotReady(
+                            ValidationStatus::Unknown,
+                        )) => {
+                            error!("\tRequired::Unknown");
+                            //return Ok(Required::Unknown);
+                            frame.3 = true;
+                        }
+                        _ => {
+                            return Err(PPGEvaluatorError::InternalError(format!(
+                                "bug1943: {:?}",
+                                jobs[downstream_idx]
+                            )))
+                        }
+                    },
+                }
+            }
+            if let Some(verdict) = finished {
+                frames.pop();
+                match frames.last_mut() {
+                    None => return Ok(verdict),
+                    Some(parent) => {
+                        if let Required::Unknown = verdict {
+                            parent.3 = true;
                         }
                     }
-
-                    JobState::Output(JobStateOutput::NotReady(ValidationStatus::Invalidated)) => {
-                        error!("\tRequired::Yes");
-                        return Ok(Required::Yes);
-                    }
-                    JobState::Ephemeral(JobStateEphemeral::NotReady(
-                        ValidationStatus::Invalidated,
-                    )) => {
-                        error!("\tRequired::Yes");
-                        return Ok(Required::Yes);
-                    }
-
-                    JobState::Output(JobStateOutput::NotReady(ValidationStatus::Unknown)) => {
-                        error!("\tRequired::Unknown");
-                        had_unknown = true;
-                        //return Ok(Required::Unknown);
-                    }
-                    JobState::Ephemeral(JobStateEphemeral::FinishedUpstreamFailure) => {}
-                    JobState::Output(JobStateOutput::FinishedSkipped)
-                    | JobState::Output(JobStateOutput::FinishedUpstreamFailure) => {
-                        //why would this short circuit?
-                        //error!("\tRequired::No");
-                        //return Ok(Required::No)
-                    }
-                    JobState::Ephemeral(JobStateEphemeral::NotReady(ValidationStatus::Unknown)) => {
-                        error!("\tRequired::Unknown");
-                        //return Ok(Required::Unknown);
-                        had_unknown = true;
-                    }
-                    _ => {
-                        return Err(PPGEvaluatorError::InternalError(format!(
-                            "bug1943: {:?}",
-                            jobs[downstream_idx]
-                        )))
-                    }
-                },
+                }
             }
-        }
-        if had_unknown {
-            Ok(Required::Unknown)
-        } else {
-            Ok(Required::No)
         }
     }
 
